@@ -175,8 +175,14 @@ pub fn in_process<T>(vfs: &Rc<Vfs>, hash_seed: u64, f: impl FnOnce() -> T) -> Re
 
 /// Runs the okane CLI with `argv` (without the program name) as one simulated process.
 pub fn run_cli(vfs: &Rc<Vfs>, proc_: &Proc, argv: &[String]) -> Obs {
+    run_cli_sink(vfs, proc_, argv, None)
+}
+
+/// As [`run_cli`], with a stdout that fails hard (EPIPE / ENOSPC) after `k` bytes.
+pub fn run_cli_sink(vfs: &Rc<Vfs>, proc_: &Proc, argv: &[String], fail_after: Option<(usize, std::io::ErrorKind)>) -> Obs {
     use clap::Parser as _;
     let mut w = ChunkWriter::new(&proc_.write_chunks, proc_.eintr);
+    w.fail_after = fail_after;
     let r = in_process(vfs, proc_.hash_seed, || {
         let mut full: Vec<String> = vec!["okane".to_string()];
         full.extend(argv.iter().cloned());
